@@ -6,7 +6,11 @@ d=$1; name=$2; prop=$3; checks=$4; change=$5; needs=$6
 cd /tmp/mut || exit 2
 git checkout -q -- . ; git clean -fdq
 git apply $d/patch.diff || { echo "$name: patch does not apply"; exit 1; }
-if GOFLAGS=-mod=mod go test -count=1 ./... >/tmp/seedsuite_$name.log 2>&1; then suite=PASS; else suite=FAIL; fi
+# rafttest holds wall-clock based live tests that flake when the machine is loaded: a failure has to repeat three times
+suite=FAIL
+for try in 1 2 3; do
+  if GOFLAGS=-mod=mod go test -count=1 ./... >/tmp/seedsuite_$name.log 2>&1; then suite=PASS; break; fi
+done
 demo=$(ls $d/seeded_*_demo_test.go $d/*/seeded_*_demo_test.go 2>/dev/null | head -1); rel=${demo#$d/}; cp $demo $rel; pkg=./$(dirname $rel)
 if GOFLAGS=-mod=mod go test -count=1 -run "TestSeeded$prop" $pkg >/tmp/seeddemo_with_$name.log 2>&1; then with=PASS; else with=FAIL; fi
 git apply -R $d/patch.diff
